@@ -1118,8 +1118,63 @@ static void x_once(const plan_t *p)
     g_run.nontrivial = maxreach >= 2;
 }
 
+/* a table whose buckets hold enormous chains: 100 000 ... 600 000 elements in 1-3 buckets, then a resize to a sensible
+ * size and the whole rehash (every node of the long chains is relinked), enumeration, lookups, clear */
+static uint64_t hc_seen; static uint64_t hc_cleared;
+static int hc_visit(const void *e, void *p) { (void)e; (void)p; hc_seen++; return 0; }
+static void hc_clear(void *e, void *p) { (void)e; (void)p; hc_cleared++; }
+static void huge_chains(const plan_t *p)
+{
+    static const size_t sizes[] = { 100000, 300000, 600000 };
+    struct simheap_cfg hc = { RP_MOVE, (uint64_t)1 << 28, (unsigned char)p->cfg[CF_JUNK] };
+    static struct cstl_hash ht; static void *ret;
+    size_t n = sizes[p->cfg[CF_KEYS] % 3], i, nb = 1 + (size_t)(p->cfg[CF_MAXE] % 3);
+    struct xelem *pool = malloc(n * sizeof *pool);
+    if (!pool) sim_harness_bug("hash: no memory for huge chains");
+    simheap_reset(&hc, p->cfg[CF_JUNK]);
+    sim_watchdog(100);
+    mode_g = p->mode; g_hnd = 0;
+    g_cur_prop = "C03"; g_cur_ctx = "huge-chains"; g_run.step = 0; g_run.opkind = O_RESIZE; g_run.steps++;
+    memset(&ht, (int)(unsigned char)p->cfg[CF_JUNK], sizeof ht);
+    cstl_hash_init(&ht, offsetof(struct xelem, hn));
+    TRY(cstl_hash_resize(&ht, nb, cstl_hash_div));
+    g_run.opkind = O_INSERT;
+    for (i = 0; i < n; i++) {
+        pool[i].magic = EMAGIC; pool[i].tail = ~EMAGIC; pool[i].id = (int)i; pool[i].nk = 0;
+        g_inlib = 1; cstl_hash_insert(&ht, i, &pool[i]); g_inlib = 0;
+    }
+    if (cstl_hash_size(&ht) != n) VIOL("size", "table with huge chains reports size %zu after %zu inserts", cstl_hash_size(&ht), n);
+    g_run.opkind = O_RESIZE;
+    TRY(cstl_hash_resize(&ht, 64 + (size_t)(p->cfg[CF_TABSEED] % 1000), (p->cfg[CF_TABSEED] >> 12 & 1) ? cstl_hash_mul : cstl_hash_div));
+    if (g_aborted) VIOL("abort", "resize of a table with huge chains aborted");
+    g_run.opkind = O_FIND;
+    TRY(ret = cstl_hash_find(&ht, n / 2, NULL, NULL));         /* the first keyed operation cleans up to three of the enormous buckets */
+    if (ret != &pool[n / 2]) VIOL("lost_element", "an element in a chain of %zu is not found by its key after the resize", n / nb);
+    g_run.opkind = O_REHASH;
+    TRY(cstl_hash_rehash(&ht));
+    if (g_aborted) VIOL("abort", "rehash of a table with huge chains aborted");
+    g_run.opkind = O_FIND;
+    for (i = 0; i < n; i += 1 + n / 20000) {
+        TRY(ret = cstl_hash_find(&ht, i, NULL, NULL));
+        if (ret != &pool[i]) VIOL("lost_element", "element %zu of %zu is not found by its key after the rehash of enormous chains", i, n);
+    }
+    g_cur_prop = "C04"; g_run.opkind = O_FOREACH_CONST; hc_seen = 0;
+    TRY((void)cstl_hash_foreach_const(&ht, hc_visit, NULL));
+    if (hc_seen != n) VIOLP("C04", "enum_missed", "foreach_const visited %llu of %zu elements", (unsigned long long)hc_seen, n);
+    g_run.opkind = O_CLEAR; hc_cleared = 0;
+    TRY(cstl_hash_clear(&ht, hc_clear));
+    if (hc_cleared != n) VIOLP("C04", "clear_missed", "clear handed over %llu of %zu elements", (unsigned long long)hc_cleared, n);
+    if (simheap_live_count(TAG_LIB) != 0) VIOLP("C04", "clear_bucket_block", "clear left %u library blocks allocated", simheap_live_count(TAG_LIB));
+    free(pool);
+    simheap_audit("C03", "huge-chains");
+    PROBE("huge_chains"); if (n / nb >= 300000) PROBE("huge_chain_300000");
+    EVT("huge_chains", n, nb, 0);
+    g_run.nontrivial = 1;
+}
+
 static void x_exec(const plan_t *p)
 {
+    if (p->mode == 103) { huge_chains(p); return; }
     if (p->mode == 16) faultenum(p, x_once); else x_once(p);
 }
 
@@ -1154,6 +1209,14 @@ static void x_gen(prng_t *r, int mode, plan_t *p)
         for (n = 2 + (int)prng_below(r, 20); n > 0; n--) { o = plan_add(p, O_INSERT); o->a[0] = 0; o->a[1] = prng_next(r) >> 16; o->a[2] = prng_below(r, 6); o->a[3] = prng_next(r) >> 8; }
         o = plan_add(p, O_RESIZE); o->a[0] = 0; o->a[1] = 1 + prng_below(r, 32); o->a[2] = 1 + prng_below(r, NFN - 1); o->a[3] = 0;
         o->a[5] = 1 + prng_below(r, 3); o->a[6] = prng_below(r, 7);
+        return;
+    }
+    if (mode == 103) {
+        /* sizes in turn: the first runs are 600000 in one bucket, 300000 in one, 600000 in three, 100000 in two */
+        static const uint64_t sz[4] = { 2, 1, 2, 0 }, nb[4] = { 0, 0, 2, 1 };
+        p->cfg[CF_KEYS] = g_gen_index < 4 ? sz[g_gen_index] : prng_below(r, 3);
+        p->cfg[CF_MAXE] = g_gen_index < 4 ? nb[g_gen_index] : prng_below(r, 3);
+        p->cfg[CF_JUNK] = 1 + prng_below(r, 254); p->cfg[CF_TABSEED] = prng_next(r); p->cfg[CF_NT] = 1;
         return;
     }
     if (mode == 117) {
